@@ -1,2 +1,61 @@
+(* Props/C04.v — expired entries are reclaimed within about one tick of their deadline *)
 From Coq Require Import ZArith List Bool.
-From Verif Require Import Base.Word64 Model.Wheel.
+From Verif Require Import Base.Word64 Model.Wheel Proof.WheelP Proof.WheelA Proof.WheelT.
+From Verif Require Import Gen.Consts Gen.Kernels.
+Import ListNotations.
+Open Scope Z_scope.
+
+(* upper bound: after any history of schedule / re-schedule / deschedule / advance
+   (deadlines on every level, any advance pattern), once advance(now) has run no
+   scheduled entry has a deadline in an earlier 2^30 ns tick than [now]: every entry
+   is reported by the first advance that falls in a later finest tick than its deadline *)
+Theorem c04_prompt : forall ops n0 now,
+  0 <= n0 < tmax -> wrun_pre (newWheel n0) (ops ++ [WAdv now]) ->
+  let w := wrun (newWheel n0) (ops ++ [WAdv now]) in
+  wnanos w = now /\ forall e, In e (wents w) -> ticksOf 0 now <= ticksOf 0 (eexp e).
+Proof. exact prompt. Qed.
+Print Assumptions c04_prompt.
+
+(* the positioning invariant itself, over all histories *)
+Theorem c04_invariant : forall ops w, WInv w -> wrun_pre w ops -> WInv (wrun w ops).
+Proof. exact wrun_inv. Qed.
+Print Assumptions c04_invariant.
+
+(* lower bound: nothing is reported before its deadline, and only scheduled entries are *)
+Theorem c04_not_early : forall w now, WInv w -> wnanos w <= now < tmax ->
+  Forall (fun id => exists e, In e (wents w) /\ eid e = id /\ eexp e <= now) (snd (advance w now)).
+Proof. exact not_early. Qed.
+Print Assumptions c04_not_early.
+
+Theorem c04_advance_keeps_pairs : forall w now, WInv w -> wnanos w <= now < tmax ->
+  forall e, In e (wents (fst (advance w now))) ->
+  exists e0, In e0 (wents w) /\ eid e0 = eid e /\ eexp e0 = eexp e.
+Proof. exact advance_keeps_pairs. Qed.
+Print Assumptions c04_advance_keeps_pairs.
+
+(* changing a TTL re-positions the entry so that neither bound depends on earlier deadlines *)
+Theorem c04_reschedule_independent : forall w id exp,
+  let w' := schedule w id exp in
+  In (mkEnt id exp (fst (findIndex (wnanos w) exp)) (snd (findIndex (wnanos w) exp))) (wents w') /\
+  (forall e, In e (wents w') -> eid e = id ->
+     e = mkEnt id exp (fst (findIndex (wnanos w) exp)) (snd (findIndex (wnanos w) exp))) /\
+  (forall e, eid e <> id -> (In e (wents w') <-> In e (wents w))).
+Proof. exact reschedule_independent. Qed.
+Print Assumptions c04_reschedule_independent.
+
+(* the tables the model uses are the ones in timerwheel.go on this run *)
+Theorem c04_tables_in_sync :
+  c_wheel_buckets = map bucketsOf [0; 1; 2; 3; 4] /\
+  c_wheel_spans = map spanOf [0; 1; 2; 3; 4; 5] /\
+  map (fun i => 2 ^ shiftOf i) [0; 1; 2; 3; 4] = map spanOf [0; 1; 2; 3; 4].
+Proof. repeat split; reflexivity. Qed.
+Print Assumptions c04_tables_in_sync.
+
+(* non-vacuity: a concrete history with entries on three levels meets the preconditions,
+   and the one-day entry is reported by the first advance past its deadline *)
+Example c04_example :
+  let ops := [WSched 1 6000000000; WSched 2 100000000000; WSched 3 86400000000000; WAdv 7000000000] in
+  wrun_pre (newWheel 1000) ops /\
+  snd (advance (wrun (newWheel 1000) ops) 86400000000001) = [2; 3] /\
+  snd (advance (wrun (newWheel 1000) [WSched 2 100000000000]) 100000000000) = [2].
+Proof. vm_compute. repeat split; discriminate || reflexivity. Qed.
